@@ -187,6 +187,26 @@ PAIRS = [
     ("a: .repeat 3 { br a }\n", "a: br a\nbr a\nbr a\n"),
     ("nop\n.end\nhalt\n", "nop\n"),
 ]
+
+
+def gen_pairs():
+    """'.repeat n { body }' against the body written n times: constant-size and position-dependent bodies (alignment padding, '. = X' is not
+    allowed inside), n = 0..5, with the link base known before the repeat, after it, odd, or left to the default"""
+    bodies = [".word .", ".byte 1\n.even\n.word .\n.byte 2", "mov #., r0\n.byte 1\n.even", ".byte 1\n.odd", "clr lab\n.byte 3\n.even", "mov lab, @lab\n.asciz \"ab\"",
+              ".byte . & 377", ".repeat 2 { .byte 7\n.even }\n.byte 1", "br lab", ".word lab - .", ".blkb 3\n.even\n.word ."]
+    prefixes = ["", ".link 1000\n", ".link 1001\n.byte 5\n", "nop\n"]
+    out = []
+    for bi, body in enumerate(bodies):
+        for n in (0, 1, 2, 3, 5):
+            pre = prefixes[(bi + n) % len(prefixes)]
+            tail = "\n.even\nlab: .word lab\n"
+            out.append((pre + ".repeat %d { %s }" % (n, body) + tail, pre + "\n".join([body.replace(".repeat 2 { .byte 7\n.even }", ".byte 7\n.even\n.byte 7\n.even")] * n) + tail))
+    # the base set only after the repeat
+    out.append((".repeat 3 { .byte 1\n.even\n.word . }\n.link 2000\n", "\n".join([".byte 1\n.even\n.word ."] * 3) + "\n.link 2000\n"))
+    return out
+
+
+PAIRS = PAIRS + gen_pairs()
 D3_PAIRS = [(".repeat 3 { .word ./2 }\n", ".word ./2\n.word ./2\n.word ./2\n"), (".repeat 2 { .word . _ 1 }\n", ".word . _ 1\n.word . _ 1\n")]
 
 
